@@ -686,6 +686,7 @@ var panicJustified = map[string]string{
 	"(*alloctxn.AllocTxn).AssertValidBlock|invalid blkno": "block pointers come from the allocator, whose range is the data region (C15.K3)",
 	"dir.RemName|RemName":                         "name cache mirrors the directory (C10.W2, C09.A2)",
 	"nfs.lockInodes$2|func":                       "every sorted number is one of the caller's numbers (private copy, C06.L1)",
+	"(*fstxn.FsTxn).dropInodes|dropInodes":        "cache.LookupSlot never returns nil (evicts instead)",
 	"(*cache.Cache).evict|evict":                  "cache non-empty when full",
 	"(*cache.Cache).LookupSlot|LookupSlot":        "entries map keyed by id",
 	"(*shrinker.ShrinkerSt).DoShrink|shrink":      "GetInodeInumFree never returns nil",
